@@ -11,6 +11,11 @@ META = {
         'outside': ['parsing of FASTA bytes (wrapping, gzip)', 'IUPAC letters other than N in the input', 'the text printed by ska nk (Display/Debug, decode_kmer)', 'CLI parsing', 'k-dependence of window control flow beyond the k listed (argued, not solved: k only enters idx+k comparisons)'],
         'assumptions': ['Kani/CBMC model of rustc MIR semantics', 'library models in /verif/models meet the documented contracts of hashbrown/ndarray/needletail'],
     },
+    'C06': {
+        'bounds': 'row logic: 1 row x 3 samples (quick: 16 of the 64 flag configurations chosen by VERIF_SEED; thorough: all 64, and 1 x 4); row alignment: 2 rows x 3 samples for 8 flag combinations; threshold arithmetic: <= 4 samples',
+        'outside': ['cli.rs value parsing', 'tables beyond 2 x 4 (row logic is per row; alignment is a per-row copy)', 'lower-case symbols in the stored table (never stored)', 'rows without any base (never stored)'],
+        'assumptions': ['Kani/CBMC model of rustc MIR semantics', 'models of ndarray::Array2 and hashbrown::HashSet in /verif/models meet the documented contracts', 'stored rows contain at least one base and counts equal the number of non-gap symbols (what build/merge/delete store)'],
+    },
     'C16': {
         'bounds': 'u64: all odd k in 5..=31; u128: all odd k in 5..=63; windows of k+2 bases for rolling; see per-obligation bounds',
         'outside': ['String-producing decoders decode_kmer / skalo_decode_kmer unless listed as decided', 'hash_val (ahash)'],
